@@ -89,6 +89,7 @@ class State(object):
         self.written_params = set()
         self.notes = []
         self.tags = {}
+        self.elemtypes = {}        # z3 ast id of a list value -> python class of its elements
         self.hard = []             # facts kept out of feasibility queries (regular expressions ...), used by obligations
 
     def hyps(self):
@@ -115,6 +116,7 @@ class State(object):
         s.written_params = set(self.written_params)
         s.notes = list(self.notes)
         s.tags = dict(self.tags)
+        s.elemtypes = dict(self.elemtypes)
         s.hard = list(self.hard)
         return s
 
@@ -530,6 +532,9 @@ class Executor(object):
     def obj_getattr(self, st, v, pycls, attr):
         import inspect
         static = inspect.getattr_static(pycls, attr, None) if pycls is not None else None
+        declared = self.env.fields.lookup(pycls, attr)
+        if declared is not None and not declared.get("const") and not pycls.__module__.startswith("jsonrpclib"):
+            static = None        # an attribute of a library object that the trusted model keeps in the heap
         if isinstance(static, property):
             return self.call_function(st, static.fget, [v], {}, "property %s" % attr)
         if static is not None and (inspect.isfunction(static) or isinstance(static, (staticmethod, classmethod))
@@ -558,6 +563,8 @@ class Executor(object):
         if ftype is not None:
             t = self.env.fields.resolve(ftype)
             st.settype(val, t)
+        if info.get("elem_type") is not None:
+            st.elemtypes[val.get_id()] = self.env.fields.resolve(info["elem_type"])
         return val
 
     def ev_Subscript(self, st, e):
@@ -632,7 +639,13 @@ class Executor(object):
         hi_c = z3.If(hi_i < 0, z3.If(hi_i + n < 0, 0, hi_i + n), z3.If(hi_i > n, n, hi_i))
         out.append((V.is_str(v), ("val", V.VStr(z3.SubString(s_, lo_c, z3.If(hi_c > lo_c, hi_c - lo_c, 0))))))
         out.append((z3.Not(z3.Or(V.is_list(v), V.is_tuple(v), V.is_str(v))), ("unsupported", "slice of this kind")))
-        return self.apply_op(st, out, "slice")
+        res = self.apply_op(st, out, "slice")
+        et = st.elemtypes.get(v.get_id()) if z3.is_expr(v) else None
+        if et is not None:
+            for s2, oc in res:
+                if oc[0] == "val":
+                    s2.elemtypes[oc[1].get_id()] = et
+        return res
 
     def ev_UnaryOp(self, st, e):
         def go(s, v):
